@@ -1,4 +1,5 @@
 import Bmc.Proto.Metrics
+import Bmc.Gen.Facts
 import Bmc.Lemmas.MetricsWire
 import Bmc.Proofs.C05.Core
 /-! # C18 — exported metrics account exactly for what happened (property theorems only)
@@ -203,6 +204,36 @@ theorem wire_accounting (C : Ops) (hC : C.Lawful) (c : Cmd) (hf : c.reqFails = f
   refine ⟨by simp, fun n => ?_, c1⟩
   rw [c2 n, succeeds_wire C s.keys c script hn]
   first | rfl | congr
+
+/-- TIE to the source (regenerated on every run): every instrumentation site of the module, as
+    `<metric>.<method>@<package>.<function>` with multiplicity — exactly the increments `Proto/Metrics.lean` models
+    (attempts, failures ×2 and the duration timer in each of the two `SendCommand`s; retries and responses in each of the
+    two retry closures; session and connection open / close accounting) plus the transport's byte / latency histograms,
+    which no property constrains. An increment added, removed or moved to another function changes this list. -/
+theorem instrumentation_sites : Bmc.Gen.Facts.metricSites =
+    ["commandAttempts.Inc@bmc.SendCommand",
+     "commandAttempts.Inc@bmc.SendCommand",
+     "commandDuration.NewTimer@bmc.SendCommand",
+     "commandDuration.NewTimer@bmc.SendCommand",
+     "commandFailures.Inc@bmc.SendCommand",
+     "commandFailures.Inc@bmc.SendCommand",
+     "commandFailures.Inc@bmc.SendCommand",
+     "commandFailures.Inc@bmc.SendCommand",
+     "commandResponses.Inc@bmc.buildAndSend",
+     "commandResponses.Inc@bmc.buildAndSendCommand",
+     "commandRetries.Inc@bmc.buildAndSend",
+     "commandRetries.Inc@bmc.buildAndSendCommand",
+     "receiveBytes.Observe@transport.Send",
+     "responseLatency.Observe@transport.Send",
+     "sessionOpenAttempts.Inc@bmc.NewV2Session",
+     "sessionOpenFailures.Inc@bmc.NewV2Session",
+     "sessionsOpen.Dec@bmc.closeSession",
+     "sessionsOpen.Inc@bmc.NewV2Session",
+     "transmitBytes.Observe@transport.Send",
+     "v2ConnectionOpenAttempts.Inc@bmc.DialV2",
+     "v2ConnectionOpenFailures.Inc@bmc.DialV2",
+     "v2ConnectionsOpen.Dec@bmc.Close",
+     "v2ConnectionsOpen.Inc@bmc.DialV2"] := by decide
 
 example : (run [.dialOk, .openOk, .cmd "Get Device ID" true true [.junk, .temp 0xC0, .final 0], .closeSess [.final 0], .closeConn]).retries = 2 := by
   decide
